@@ -42,6 +42,9 @@ func (c *compiler) compile() (string, error) {
 		var res interface{}
 		var err error
 
+		// forget the inner statement recorded while an earlier tag ran
+		c.curStmt = nil
+
 		switch node := stmt.(type) {
 		case *ast.ReturnStatement:
 			res, err = c.evalReturnStatement(node)
